@@ -1,6 +1,6 @@
 (* C17 property theorems: statements only, each closed by `exact`, with Print Assumptions. *)
-From Coq Require Import ZArith QArith Qabs List Bool PrimFloat.
-From QE Require Import Base.Num C17.Model C17.Proofs C17.Proofs2 C17.Proofs3 C17.Proofs4 C17.Proofs5 C17.Proofs6 C17.Findings.
+From Coq Require Import ZArith QArith Qabs List Bool PrimFloat Permutation.
+From QE Require Import Base.Num C17.Model C17.Proofs C17.Proofs2 C17.Proofs3 C17.Proofs4 C17.Proofs5 C17.Proofs6 C17.Proofs7 C17.Findings.
 Import ListNotations.
 
 (* converged = true iff the stopping criterion fired within maxiter passes; otherwise converged = false is
@@ -164,3 +164,60 @@ Theorem C17_nelder_mead_shrink_order_refuted :
   | Some (_, v, true, _) => PrimFloat.ltb v 1.625 | _ => false end = true.
 Proof. exact nelder_mead_shrink_order_refuted. Qed.
 Print Assumptions C17_nelder_mead_shrink_order_refuted.
+
+(* nelder_mead, EVERY arithmetic instance: at the end of every run the order array sort_ind is a permutation of 0..n
+   (initial argsort, every reflection/expansion/contraction insertion, repaired shrink reorder) *)
+Theorem C17_nelder_mead_order_permutation : forall (T : Type) (NX : NumX T) (f : list T -> T) (bounds : list (T * T))
+    (rho chi gam sig nonzdelt zdelt : T) (x0 : list T) (tol_f tol_x : T) (max_iter : Z) (s : @nm T) (fail : bool),
+  nm_loop f bounds rho chi gam sig (S (Z.to_nat max_iter)) (nm_init f bounds nonzdelt zdelt x0) (length x0)
+          (npow sig (length x0)) tol_f tol_x max_iter = Some (s, fail) ->
+  Permutation (si s) (seq 0 (S (length x0))).
+Proof. exact (@nelder_mead_order_permutation). Qed.
+Print Assumptions C17_nelder_mead_order_permutation.
+
+(* every instance whose comparison is a strict weak order (asymmetry + negative transitivity): each pass keeps the order
+   array sorted by the stored values, a shrink pass under the proviso that no shrunk vertex beats the best one *)
+Theorem C17_nelder_mead_step_sorted : forall (T : Type) (NX : NumX T) (f : list T -> T) (bounds : list (T * T))
+    (rho chi gam sig : T),
+  (forall a b : T, nltb a b = true -> nltb b a = false) ->
+  (forall a b c : T, nltb a b = false -> nltb b c = false -> nltb a c = false) ->
+  forall (n : nat) (s : @nm T) (sn : T),
+  nm_ok f bounds n s -> NoDup (si s) -> sorted (fv s) (si s) ->
+  shrink_keeps_best f bounds rho chi gam sig n sn s ->
+  sorted (fv (nm_step f bounds rho chi gam sig s n sn)) (si (nm_step f bounds rho chi gam sig s n sn)).
+Proof. exact (@nm_step_sorted). Qed.
+Print Assumptions C17_nelder_mead_step_sorted.
+
+(* run level: if every shrink pass of the run keeps the best vertex best, the returned vertex is a best stored vertex
+   (no stored value is below the reported one); in particular for runs without shrink passes *)
+Theorem C17_nelder_mead_sorted : forall (T : Type) (NX : NumX T) (f : list T -> T) (bounds : list (T * T))
+    (rho chi gam sig nonzdelt zdelt : T),
+  (forall a b : T, nltb a b = true -> nltb b a = false) ->
+  (forall a b c : T, nltb a b = false -> nltb b c = false -> nltb a c = false) ->
+  forall x0 tol_f tol_x max_iter x nf suc nit_ V,
+  run_keeps_best f bounds rho chi gam sig (S (Z.to_nat max_iter)) (nm_init f bounds nonzdelt zdelt x0) (length x0)
+                 (npow sig (length x0)) tol_f tol_x max_iter ->
+  nelder_mead f bounds rho chi gam sig nonzdelt zdelt x0 tol_f tol_x max_iter = NMRes x nf suc nit_ V ->
+  forall i, (i <= length x0)%nat -> ext_lt (neg_fun f bounds (nth i V [])) nf = false.
+Proof. exact (@nelder_mead_sorted). Qed.
+Print Assumptions C17_nelder_mead_sorted.
+
+Example ex_strict_weak_order_Q :   (* the two order hypotheses hold for the exact instance *)
+  (forall a b : Q, nltb a b = true -> nltb b a = false) /\
+  (forall a b c : Q, nltb a b = false -> nltb b c = false -> nltb a c = false).
+Proof. split; [exact Qltb_asym|exact Qltb_negtrans]. Qed.
+
+(* the proviso cannot be dropped, and the pinned shrink form breaks the permutation property (finding D19) *)
+Theorem C17_nelder_mead_sorted_refuted :
+  match nelder_mead negrosen10 [] 1 2 0.5 0.5 0x1.999999999999ap-5 0x1.0624dd2f1a9fcp-12 [(-3.375)%float; 0.625%float]
+                    0x1.b7cdfd9d7bdbbp-34 0x1.b7cdfd9d7bdbbp-34 50 with
+  | NMRes x (Fin nf) true 8%Z V =>
+      PrimFloat.eqb nf 0x1.3921c5c3957f8p+2 && ext_lt (neg_fun negrosen10 [] (nth 1 V [])) (Fin nf)
+  | _ => false end = true.
+Proof. exact nelder_mead_sorted_refuted. Qed.
+Print Assumptions C17_nelder_mead_sorted_refuted.
+
+Theorem C17_nelder_mead_old_order_not_permutation :
+  final_order_old = Some [2; 1; 2]%nat /\ nodupb [2; 1; 2]%nat = false.
+Proof. exact nelder_mead_old_order_not_permutation. Qed.
+Print Assumptions C17_nelder_mead_old_order_not_permutation.
